@@ -7,6 +7,7 @@ UNITS = [
          text_rewrites=[("E5m", "query::js_path(", "js_path(", 1)],
          ensures=[
              ("parse_err", "parsed(path@) is None ==> r is Err"),
+             ("eval", "parsed(path@) matches Some(q) ==> r matches Ok(v) && qnodes(v@) == impl_query(q, self)"),
              ("nodes", "parsed(path@) matches Some(q) ==> r matches Ok(v) && ms(qnodes(v@)) == ms(rfc_query(q, self))"),
              ("nodelist", "parsed(path@) matches Some(q) ==> r matches Ok(v) && (segs_exact(q.segments@, true) ==> qnodes(v@) == rfc_query(q, self))"),
          ]),
@@ -14,6 +15,8 @@ UNITS = [
          text_rewrites=[("E5m", "query::js_path_path(", "js_path_path(", 1)],
          ensures=[
              ("parse_err", "parsed(path@) is None ==> r is Err"),
+             ("projection", "parsed(path@) matches Some(q) ==> r matches Ok(v) && v@.len() == impl_query(q, self).len() "
+                            "&& forall|i: int| 0 <= i < v@.len() ==> (#[trigger] v@[i])@ == impl_query(q, self)[i].path"),
              ("paths", "parsed(path@) matches Some(q) ==> r matches Ok(v) && (segs_exact(q.segments@, true) ==> "
                        "v@.len() == rfc_query(q, self).len() && forall|i: int| 0 <= i < v@.len() ==> (#[trigger] v@[i])@ == rfc_query(q, self)[i].path)"),
          ]),
@@ -21,6 +24,8 @@ UNITS = [
          text_rewrites=[("E5m", "query::js_path_vals(", "js_path_vals(", 1)],
          ensures=[
              ("parse_err", "parsed(path@) is None ==> r is Err"),
+             ("projection", "parsed(path@) matches Some(q) ==> r matches Ok(v) && v@.len() == impl_query(q, self).len() "
+                            "&& forall|i: int| 0 <= i < v@.len() ==> #[trigger] v@[i] == impl_query(q, self)[i].inner"),
              ("values", "parsed(path@) matches Some(q) ==> r matches Ok(v) && (segs_exact(q.segments@, true) ==> "
                         "v@.len() == rfc_query(q, self).len() && forall|i: int| 0 <= i < v@.len() ==> #[trigger] v@[i] == rfc_query(q, self)[i].inner)"),
          ]),
